@@ -31,6 +31,9 @@ def run(prog, rep, tier, snap):
     rep.call(fillers.r09_5, prog, rep)
     rep.rule("R09.7", "an offset day-of-year is bounded above before the remainder-table lookup", 1)
     rep.call(fillers.r09_7, prog, rep)
+    from ..rules import encodings
+    rep.rule("R09.8", "only a positive INTERVAL reaches the fillers' unsigned step", 2)
+    rep.call(encodings.r09_8, prog, rep)
     from . import c15
     rep.rule("R15.4", "month-transition table accesses stay inside the table (shared with C15)", 5)
     rep.call(c15.r15_4, prog, rep)
